@@ -34,7 +34,79 @@ func verifyFunc(P *Program, con *Contract) (g *Gen, err error) {
 		}
 	}()
 	ex.runVC()
+	g.includeAxioms(ex)
 	return g, nil
+}
+
+// specRefs collects the names of preds/spec functions referenced by an expression.
+func specRefs(e Expr, out map[string]bool) {
+	switch x := e.(type) {
+	case *ECall:
+		if id, ok := x.Fun.(*EIdent); ok {
+			out[id.Name] = true
+		} else {
+			specRefs(x.Fun, out)
+		}
+		for _, a := range x.Args {
+			specRefs(a, out)
+		}
+	case *EUnary:
+		specRefs(x.X, out)
+	case *EDeref:
+		specRefs(x.X, out)
+	case *EBinary:
+		specRefs(x.X, out)
+		specRefs(x.Y, out)
+	case *ESel:
+		specRefs(x.X, out)
+	case *EIndex:
+		specRefs(x.X, out)
+		specRefs(x.I, out)
+	case *EOld:
+		specRefs(x.X, out)
+	case *EQuant:
+		specRefs(x.Body, out)
+	case *ELit:
+		for _, v := range x.Vals {
+			specRefs(v, out)
+		}
+	}
+}
+
+// includeAxioms adds every trusted axiom that mentions a spec function declared in this context.
+func (g *Gen) includeAxioms(ex *Exec) {
+	done := map[string]bool{}
+	for changed := true; changed; {
+		changed = false
+		for _, ax := range g.P.Axioms {
+			if done[ax.Name] || ax.Body == nil {
+				continue
+			}
+			refs := map[string]bool{}
+			specRefs(ax.Body.E, refs)
+			hit := false
+			for r := range refs {
+				if g.declared["fn:|spec:"+r+"|"] {
+					hit = true
+				}
+			}
+			if !hit {
+				continue
+			}
+			done[ax.Name] = true
+			changed = true
+			env := &Env{g: g, ex: ex, vars: map[string]Val{}, st: g.entryState(), pkgPath: ax.Pkg}
+			if env.pkgPath == "" {
+				env.pkgPath = g.pkgPath
+			}
+			t, err := env.trBool(ax.Body.E)
+			if err != nil {
+				panic(specErr{fmt.Sprintf("axiom %s: %v", ax.Name, err)})
+			}
+			g.axioms = append(g.axioms, t)
+			g.note("trusted axiom: " + ax.Name + ": " + ax.Body.Src)
+		}
+	}
 }
 
 func (ex *Exec) declareParams() {
@@ -643,5 +715,6 @@ func verifyLemma(P *Program, lem *Contract) (g *Gen, err error) {
 		g.obls = append(g.obls, &Obligation{Name: fmt.Sprintf("%s/lemma/%s", g.curFunc, e.Label), Func: g.curFunc, Kind: "lemma", Label: e.Label, Goal: t, PC: "true",
 			NFacts: nf, Src: e.Src, Where: fmt.Sprintf("%s:%d", e.File, e.Line), g: g, Expect: "unsat", Props: lem.Props})
 	}
+	g.includeAxioms(ex)
 	return g, nil
 }
